@@ -329,6 +329,7 @@ void run_case(Rng& rng, std::uint64_t idx)
                 }
             });
             J inf = J(info).u("world", P).u("cut", cut).i("phase", phase);
+            if (std::uint64_t mis = vf_mpi_take_misuse()) { viol("mpi:library-used-MPI_COMM_WORLD-instead-of-the-communicator-it-was-given", J(inf).u("uses", mis)); return; }
             if (world.aborted) { viol("mpi:collective-mismatch-or-hang", J(inf).s("reason", world.abort_reason)); return; }
             for (int r = 1; r < P; ++r) if (tx[r] != tx[0]) { viol("mpi:ranks-return-different-checkpoints", J(inf).u("rank", r)); return; }
         }
@@ -361,6 +362,7 @@ void run_case(Rng& rng, std::uint64_t idx)
             }
         });
         J inf = J(info).u("world", P);
+        if (std::uint64_t mis = vf_mpi_take_misuse()) { viol("mpi:library-used-MPI_COMM_WORLD-instead-of-the-communicator-it-was-given", J(inf).u("uses", mis)); return; }
         if (world.aborted) { viol("mpi:collective-mismatch-or-hang", J(inf).s("reason", world.abort_reason)); return; }
         for (int r = 1; r < P; ++r) if (texts[r] != texts[0]) { viol("mpi:ranks-return-different-checkpoints", J(inf).u("rank", r)); return; }
         if (vegas) judge_vegas(c, vres, rl, gen, 0, "mpi", inf); else judge_mc(c, mres, rl, gen, 0, "mpi", inf);
